@@ -310,4 +310,127 @@ theorem closed_pred {g : List Node} {start : Nat} (hc : closedNet g start = true
     simp only [closedNet, Bool.and_eq_true, List.all_eq_true, decide_eq_true_eq] at hc
     exact (hc.2 n (lookup_mem hl)).2 s hs
 
+/-! ### the loop with failing lookups agrees with the total loop on closed networks -/
+
+/-- The total link function induced by the data network and a selector (`·.succ` / `·.pred`). -/
+def nbrFn (g : List Node) (nbrOf : Node → List Nat) (i : Nat) : List Nat :=
+  match lookup g i with | some n => nbrOf n | none => []
+
+theorem succOf_eq (g : List Node) : succOf g = nbrFn g (·.succ) := by
+  funext i; simp only [succOf, nbrFn]; cases lookup g i <;> rfl
+theorem predOf_eq (g : List Node) : predOf g = nbrFn g (·.pred) := by
+  funext i; simp only [predOf, nbrFn]; cases lookup g i <;> rfl
+
+theorem lookup_of_mem_ids {g : List Node} {i : Nat} (h : i ∈ ids g) : ∃ nd, lookup g i = some nd := by
+  simp only [ids, List.mem_map] at h
+  obtain ⟨n, hn, hid⟩ := h
+  cases hl : lookup g i with
+  | some nd => exact ⟨nd, rfl⟩
+  | none =>
+    simp only [lookup, List.find?_eq_none, decide_eq_true_eq] at hl
+    exact absurd hid (hl n hn)
+
+section
+variable {g : List Node} {nbrOf : Node → List Nat} {start : Nat} {maxLen : Rat}
+
+theorem expandR_eq (p : Path) (le : Rat) : ∀ (ss : List Nat), (∀ s ∈ ss, s ∈ ids g) →
+    expandR g start maxLen p le ss =
+      .ok (ss.filterMap (finalOf (lenOf g) start maxLen p le), ss.filterMap (nextOf (lenOf g) start maxLen p le))
+  | [], _ => by simp [expandR]
+  | s :: ss, h => by
+    have ih := expandR_eq p le ss (fun x hx => h x (by simp [hx]))
+    obtain ⟨nd, hnd⟩ := lookup_of_mem_ids (h s (by simp))
+    have hlen : lenOf g s = nd.len := by simp [lenOf, hnd]
+    unfold expandR
+    rw [ih]
+    cases hb : blocked start maxLen p le s with
+    | true => simp [finalOf, nextOf, hb]
+    | false =>
+      simp only [hnd, Bool.false_eq_true, if_false]
+      by_cases hlt : le + nd.len < maxLen
+      · simp [finalOf, nextOf, hb, hlen, hlt]
+      · simp [finalOf, nextOf, hb, hlen, hlt]
+
+theorem itemR_eq (hcl : ∀ v s, s ∈ nbrFn g nbrOf v → s ∈ ids g) (it : Item) (x : Nat)
+    (hx : it.1.getLast? = some x) (hxi : x ∈ ids g) :
+    itemR g nbrOf start maxLen it =
+      .ok (finals (nbrFn g nbrOf) (lenOf g) start maxLen it, nexts (nbrFn g nbrOf) (lenOf g) start maxLen it) := by
+  obtain ⟨nd, hnd⟩ := lookup_of_mem_ids hxi
+  have hn : nbrFn g nbrOf x = nbrOf nd := by simp [nbrFn, hnd]
+  have hl : nbrsOfLast (nbrFn g nbrOf) it.1 = nbrOf nd := by simp [nbrsOfLast, hx, hn]
+  unfold itemR finals nexts
+  simp only [hx, hnd, hl]
+  cases hss : nbrOf nd with
+  | nil => simp
+  | cons s ss =>
+    simp only
+    rw [expandR_eq it.1 it.2 (s :: ss)]
+    intro y hy
+    exact hcl x y (by rw [hn, hss]; exact hy)
+
+theorem roundR_eq (hcl : ∀ v s, s ∈ nbrFn g nbrOf v → s ∈ ids g) : ∀ (paths : List Item),
+    (∀ it ∈ paths, ∃ x, it.1.getLast? = some x ∧ x ∈ ids g) →
+    roundR g nbrOf start maxLen paths =
+      .ok (paths.flatMap (finals (nbrFn g nbrOf) (lenOf g) start maxLen),
+           paths.flatMap (nexts (nbrFn g nbrOf) (lenOf g) start maxLen))
+  | [], _ => by simp [roundR]
+  | it :: its, h => by
+    obtain ⟨x, hx, hxi⟩ := h it (by simp)
+    unfold roundR
+    rw [itemR_eq hcl it x hx hxi, roundR_eq hcl its (fun i hi => h i (by simp [hi]))]
+    simp [List.flatMap_cons]
+
+theorem loopR_eq (hcl : ∀ v s, s ∈ nbrFn g nbrOf v → s ∈ ids g) : ∀ (fuel : Nat) (paths : List Item) (final : List Path),
+    (∀ it ∈ paths, ∃ x, it.1.getLast? = some x ∧ x ∈ ids g) →
+    loopR g nbrOf start maxLen fuel paths final =
+      match loop (nbrFn g nbrOf) (lenOf g) start maxLen fuel paths final with
+      | some r => .ok r
+      | none => .error .other
+  | _, [], final, _ => by simp [loopR, loop]
+  | 0, _ :: _, _, _ => by simp [loopR, loop]
+  | fuel + 1, it :: its, final, h => by
+    unfold loopR loop
+    rw [roundR_eq hcl (it :: its) h]
+    simp only
+    refine loopR_eq hcl fuel _ _ ?_
+    intro x hx
+    rw [List.mem_flatMap] at hx
+    obtain ⟨i, hi, hxi⟩ := hx
+    obtain ⟨s, hs, _, hshape⟩ := mem_nexts_shape hxi
+    obtain ⟨y, _, hsy⟩ := mem_nbrsOfLast hs
+    exact ⟨s, by rw [hshape]; simp, hcl y s hsy⟩
+
+theorem initR_eq : ∀ (l : List Nat), (∀ s ∈ l, s ∈ ids g) →
+    initR g l = .ok (l.map fun s => ([s], lenOf g s))
+  | [], _ => by simp [initR]
+  | s :: ss, h => by
+    obtain ⟨nd, hnd⟩ := lookup_of_mem_ids (h s (by simp))
+    have hlen : lenOf g s = nd.len := by simp [lenOf, hnd]
+    unfold initR
+    rw [initR_eq ss (fun x hx => h x (by simp [hx]))]
+    simp [hnd, hlen]
+
+/-- On a closed network the loop with failing lookups is the total loop. -/
+theorem findR_eq (hcl : ∀ v s, s ∈ nbrFn g nbrOf v → s ∈ ids g) (hst : start ∈ ids g) :
+    findInRangeR g nbrOf start maxLen =
+      match findInRange (nbrFn g nbrOf) (lenOf g) start maxLen (fuelFor g) with
+      | some r => .ok r
+      | none => .error .other := by
+  obtain ⟨st, hstl⟩ := lookup_of_mem_ids hst
+  have hn : nbrFn g nbrOf start = nbrOf st := by simp [nbrFn, hstl]
+  have hin : ∀ s ∈ nbrOf st, s ∈ ids g := fun s hs => hcl start s (by rw [hn]; exact hs)
+  unfold findInRangeR findInRange initItems
+  simp only [hstl, initR_eq (nbrOf st) hin, hn]
+  refine loopR_eq hcl _ _ _ ?_
+  intro it hit
+  simp only [List.mem_map] at hit
+  obtain ⟨s, hs, rfl⟩ := hit
+  exact ⟨s, by simp, hin s hs⟩
+
+end
+
+theorem closed_start {g : List Node} {start : Nat} (hc : closedNet g start = true) : start ∈ ids g := by
+  simp only [closedNet, Bool.and_eq_true, decide_eq_true_eq] at hc
+  exact hc.1
+
 end CR.Route
